@@ -65,6 +65,9 @@ func c12Doc(name string, v2pub phase0.BLSPubKey) ([]byte, error) {
 		// legacy format: the default configuration and the second validator's own entry leave gas limit and builder
 		// to be filled in
 		return []byte(`{"proposer_config":{"` + v2pub.String() + `":{"fee_recipient":"` + feeP + `"}},"default_config":{"fee_recipient":"` + feeA + `"}}`), nil
+	case "S":
+		// legacy format with a fee recipient that is no 20-byte address: malformed content
+		return []byte(`{"default_config":{"fee_recipient":"0x12"}}`), nil
 	case "err":
 		return nil, errors.New("scripted fetch failure")
 	case "malformed":
@@ -206,6 +209,12 @@ func c12Units(tier string) []hx.Unit {
 	}
 	for _, seq := range rSeqs {
 		for _, rs := range rSets {
+			combos = append(combos, combo{seq, rs})
+		}
+	}
+	// a legacy document whose fee recipient is too short to be an address
+	for _, seq := range [][]string{{"A", "S"}, {"S", "A"}, {"S", "S"}, {"B", "S"}} {
+		for _, rs := range [][]string{{"lookup1"}, {"lookup2"}, {"register"}} {
 			combos = append(combos, combo{seq, rs})
 		}
 	}
@@ -439,7 +448,7 @@ func init() {
 	hx.Register(&hx.Prop{
 		ID:    "C12",
 		Title: "The block relay keeps answering whatever the config source does",
-		Rule: "for every sequence of 2 fetch outcomes (thorough: also every sequence of 3 over five representative outcomes) over {doc A, doc B, doc U (one validator unresolvable), doc R (a relay address that is no URL), error, malformed, empty, '{}', 'null'} (the first consumed by the constructor) and every set of 1-2 concurrent requests over {lookup v1, lookup v2, auction v1, auction v2, registration round, forwarded REST registration}: all interleavings of the refresher and the request goroutines on the real blockrelay service within the preemption bound (quick 1, thorough 2; thorough keeps 1 for three-outcome histories with two concurrent requests), followed by a further refresh, lookups and bid requests (as a beacon node makes them) for both validators; " +
+		Rule: "for every sequence of 2 fetch outcomes (thorough: also every sequence of 3 over five representative outcomes) over {doc A, doc B, doc U (one validator unresolvable), doc R (a relay address that is no URL), error, malformed, empty, '{}', 'null'; and, in listed combinations, a legacy document whose fee recipient is one byte long} (the first consumed by the constructor) and every set of 1-2 concurrent requests over {lookup v1, lookup v2, auction v1, auction v2, registration round, forwarded REST registration}: all interleavings of the refresher and the request goroutines on the real blockrelay service within the preemption bound (quick 1, thorough 2; thorough keeps 1 for three-outcome histories with two concurrent requests), followed by a further refresh, lookups and bid requests (as a beacon node makes them) for both validators; " +
 			"oracle: every call returns, no goroutine blocked, final lookups answer from the last good document (fallback if none); non-trivial = at least one contended scheduling point; distinct = distinct request-result vectors",
 		Assumptions: []string{
 			"RWMutex has Go's writer preference (a pending writer blocks new readers)",
